@@ -3,6 +3,14 @@ From Coq Require Import List NArith Bool.
 Import ListNotations.
 From Grip Require Export Model.Bytes Model.KV.
 
+(* n pairs under one prefix, for scripts too long to be written out: keys p ++ [i / 256; i mod 256] for i < n, highest
+   first (so that the model inserts each at the head), values one digit *)
+Fixpoint gen_kvs (p : bytes) (n : nat) : list (bytes * bytes) :=
+  match n with
+  | 0 => []
+  | S m => let i := N.of_nat m in (p ++ [N.div i 256; N.modulo i 256], [48 + N.modulo i 3])%N :: gen_kvs p m
+  end.
+
 Record c10_case := { cdrv : nat; cops : list kvop; cobs : list res }.
 
 Definition obytes_eqb (a b : option bytes) : bool :=
